@@ -10,6 +10,23 @@ fn oref(a: usize) -> ObjectReference {
     ObjectReference::from_raw_address(unsafe { Address::from_usize(a) }).unwrap()
 }
 
+/// `is_reachable()` as a binding would use it, except that objects of the immortal space count as
+/// reachable during nursery GCs: GenCopy/GenImmix nursery GCs reset the immortal space's mark bits and
+/// never trace into it, so `ImmortalSpace::is_reachable` answers `false` even for rooted objects there
+/// (contrary to the documentation of `ObjectReference::is_reachable`; DESIGN.md section 7, item 14 -
+/// an observation outside the listed properties).  Counted in `IMMORTAL_NURSERY_ABSTAIN`.
+pub static IMMORTAL_NURSERY_ABSTAIN: std::sync::atomic::AtomicU64 = std::sync::atomic::AtomicU64::new(0);
+fn reach<const V: usize>(o: ObjectReference) -> bool {
+    if o.is_reachable() {
+        return true;
+    }
+    if mmtk::verif::last_gc_was_nursery(mmtk_ref::<V>()) == Some(true) && mmtk::verif::space_name_of(o.to_raw_address()) == "immortal" {
+        IMMORTAL_NURSERY_ABSTAIN.fetch_add(1, std::sync::atomic::Ordering::Relaxed);
+        return true;
+    }
+    false
+}
+
 /// Walk the strong graph in memory from `start` and require that everything
 /// reached reports `is_reachable()`.
 fn check_closure_reachable<const V: usize>(starts: &[usize]) -> Option<String> {
@@ -26,7 +43,7 @@ fn check_closure_reachable<const V: usize>(starts: &[usize]) -> Option<String> {
         }
         budget -= 1;
         let o = oref(a);
-        if !o.is_reachable() {
+        if !reach::<V>(o) {
             return Some(format!("object {:#x} in the closure of a value traced in the previous round is not reachable at the next process_weak_refs call", a));
         }
         // follow the forwarded copy if there is one
@@ -53,7 +70,7 @@ pub fn process_weak_refs<const V: usize>(worker: &mut GCWorker<ShadowVM<V>>, tra
     }
     if !w.probed {
         w.probed = true;
-        let res: Vec<bool> = w.probe_addrs.iter().map(|a| oref(*a).is_reachable()).collect();
+        let res: Vec<bool> = w.probe_addrs.iter().map(|a| reach::<V>(oref(*a))).collect();
         w.probe_reachable = res;
     } else if w.closure_violation.is_none() {
         let starts = std::mem::take(&mut w.traced_last_round);
@@ -65,7 +82,7 @@ pub fn process_weak_refs<const V: usize>(worker: &mut GCWorker<ShadowVM<V>>, tra
     let mut traced_now = vec![];
     {
         let eph = &mut w.ephemerons;
-        let need = eph.iter().any(|e| !e.traced && oref(e.key).is_reachable() && !oref(e.value).is_reachable());
+        let need = eph.iter().any(|e| !e.traced && reach::<V>(oref(e.key)) && !reach::<V>(oref(e.value)));
         if need {
             tracer_context.with_tracer(worker, |tracer| {
                 for e in eph.iter_mut() {
@@ -73,9 +90,9 @@ pub fn process_weak_refs<const V: usize>(worker: &mut GCWorker<ShadowVM<V>>, tra
                         continue;
                     }
                     let key = oref(e.key);
-                    if key.is_reachable() {
+                    if reach::<V>(key) {
                         let v = oref(e.value);
-                        if !v.is_reachable() {
+                        if !reach::<V>(v) {
                             let n = tracer.trace_object(v);
                             e.value = n.to_raw_address().as_usize();
                             traced_now.push(e.value);
@@ -87,7 +104,7 @@ pub fn process_weak_refs<const V: usize>(worker: &mut GCWorker<ShadowVM<V>>, tra
             });
         } else {
             for e in eph.iter_mut() {
-                if !e.traced && oref(e.key).is_reachable() {
+                if !e.traced && reach::<V>(oref(e.key)) {
                     e.traced = true;
                 }
             }
@@ -102,7 +119,7 @@ pub fn process_weak_refs<const V: usize>(worker: &mut GCWorker<ShadowVM<V>>, tra
         let old = std::mem::take(&mut w.ephemerons);
         for mut e in old {
             let key = oref(e.key);
-            if key.is_reachable() {
+            if reach::<V>(key) {
                 e.key = key.get_forwarded_object().map(|n| n.to_raw_address().as_usize()).unwrap_or(e.key);
                 let v = oref(e.value);
                 e.value = v.get_forwarded_object().map(|n| n.to_raw_address().as_usize()).unwrap_or(e.value);
